@@ -42,7 +42,7 @@ def enumerated(quick: bool, seed: int):
         progs.append(a + b)
     triples = list(itertools.product(stmts, repeat=3))
     rnd.shuffle(triples)
-    for a, b, c in triples[: (150 if quick else 3000)]:
+    for a, b, c in triples[: (150 if quick else 1500)]:
         progs.append(a + b + c)
     out = []
     for p in progs:
